@@ -353,6 +353,11 @@ func checkBlock(p sim.Params, prev, cur *ledger.Ledger, st hist.Step, res *sim.B
 	for _, hk := range hooks {
 		f.classes = append(f.classes, "hook:"+hk)
 	}
+	if len(cur.ProposalFundMismatches()) > len(prev.ProposalFundMismatches()) {
+		// observation for the governance properties (not a C02 oracle): the per-funder shares of an escrow
+		// no longer add up to the escrow record
+		f.classes = append(f.classes, "obs:proposal-funder-shares-differ-from-escrow")
+	}
 	if nOK == 0 && len(hooks) == 0 {
 		f.classes = append(f.classes, "block:no-successful-tx-idle-hooks")
 	}
@@ -536,6 +541,14 @@ func execute(h *run.H, tr *hist.Trace, draw func(w *hist.World, i int) (hist.Ste
 		if err != nil {
 			return &outcome{"decode", "C02/decode", fmt.Sprintf("height %d: %v", w.C.Height, err)}
 		}
+		if pre := os.Getenv("VERIF_DEBUG_KEYS"); pre != "" {
+			fmt.Fprintf(os.Stderr, "---- height %d kinds %v codes %v\n", w.C.Height, st.Kinds, codes(res[0]))
+			for _, kv := range w.R[0].Dump() {
+				if strings.HasPrefix(kv.K, pre) {
+					fmt.Fprintf(os.Stderr, "  %q = %.200q\n", kv.K, kv.V)
+				}
+			}
+		}
 		out, facts := checkBlock(tr.Params, prev, cur, st, res[0])
 		if out != nil {
 			return out
@@ -549,6 +562,18 @@ func execute(h *run.H, tr *hist.Trace, draw func(w *hist.World, i int) (hist.Ste
 		prev = cur
 	}
 	return nil
+}
+
+func codes(res *sim.BlockRes) []string {
+	var out []string
+	for _, t := range res.Txs {
+		if t.Code == 0 {
+			out = append(out, "ok")
+		} else {
+			out = append(out, "rej:"+t.Log)
+		}
+	}
+	return out
 }
 
 func uniq(l []string) []string {
